@@ -681,6 +681,28 @@ pub fn scenarios(tier: &str) -> Vec<Scenario> {
             threads: vec![vec![Step::Put { k: 0 }], vec![Step::Leveled { safe_wm: true }], vec![Step::DropRange { k: 1 }], vec![Step::Read]],
             writer: 0,
         });
+        // key-value separated tree (every value is a blob; every stale blob file is rewritten at once):
+        // a relocating major compaction and a flush run while the reader resolves blob pointers at a
+        // published snapshot
+        let mut cb = TreeCfg::small(crate::driver::keys_ab()).with_blob(1);
+        if let Some(b) = &mut cb.blob {
+            b.staleness = 0.0;
+            b.age_cutoff = 1.0;
+        }
+        cb.cache_bytes = 0;
+        v.push(Scenario {
+            name: "S10-blob-writer-flusher-major-reader".into(),
+            cfg: cb,
+            preload: vec![
+                Op::MultiPut { ks: vec![0, 1] },
+                fl.clone(),
+                Op::Put { k: 0, big: false },
+                fl.clone(),
+                Op::Put { k: 1, big: false },
+            ],
+            threads: vec![w2.clone(), vec![Step::RotateFlush { safe_wm: false }], vec![Step::Major { safe_wm: true }], vec![Step::Read, Step::Read]],
+            writer: 0,
+        });
         v.push(Scenario {
             name: "S7-writer-rotator-flusher-reader".into(),
             cfg: cfg.clone(),
@@ -714,7 +736,12 @@ fn preemptions(decs: &[Decision], upto: usize) -> usize {
 }
 
 pub fn run(tier: &str, threads: usize, max_wall_s: f64) -> Outcome {
-    run_scenarios(tier, threads, max_wall_s, scenarios(tier), "C06")
+    let mut scs = scenarios(tier);
+    if let Ok(only) = std::env::var("VERIF_ONLY") {
+        // debugging aid: run only the scenarios whose name contains the given text
+        scs.retain(|s| s.name.contains(&only));
+    }
+    run_scenarios(tier, threads, max_wall_s, scs, "C06")
 }
 
 /// C18's concurrent part: the high-water marks while a flush moves data from memtable to table.
@@ -809,6 +836,11 @@ pub fn run_scenarios(tier: &str, threads: usize, max_wall_s: f64, scs: Vec<Scena
                     }
                     let schedule: Vec<usize> = r.decisions.iter().map(|d| d.chosen).collect();
                     for (sig, msg) in r.violations {
+                        // one replay per distinct signature (the first = fewest preemptions); repeated
+                        // instances of a recorded finding must not end the exploration early
+                        if found.lock().unwrap().iter().any(|f: &SchedReplay| f.sig == sig) {
+                            continue;
+                        }
                         found.lock().unwrap().push(SchedReplay {
                             engine: "sched".into(),
                             property: property.clone(),
